@@ -402,6 +402,27 @@ Section Resolver.
 
   (* Resolve, single registry (hasMulti stays false) *)
   Definition resolve (fuel : nat) (root : vkey) : res graph := snd (resolve_full fuel root).
+
+  (* the same loop with another retry bound: used by the harness to ask whether an incompatible
+     outcome is forced by the universe or only by the bound (resolve = resolve_retries maven_max_retries) *)
+  Definition resolve_retries (n : nat) (fuel : nat) (root : vkey) : res graph :=
+    snd (let (reqs, r) := pass fuel root [] in retry n fuel root reqs r).
+
+  (* harness probe: the same loop, which also stops when an incompatible pass met no requirement that was not
+     already in the lists (every later pass then walks the same way: the error is forced by the universe).
+     Stopping early can only keep the answer incompatible; it never invents a graph. *)
+  Definition no_new_reqs (before after : reqmap) : bool :=
+    forallb (fun kv => forallb (fun v => memb vkey_dec v (reqs_of before (fst kv))) (snd kv)) after.
+  Fixpoint retry_probe (n : nat) (fuel : nat) (root : vkey) (reqs : reqmap) (r : res graph) : res graph :=
+    match n with
+    | O => r
+    | S n' => if is_incompat r
+              then let (reqs', r') := pass fuel root reqs in
+                   if is_incompat r' && no_new_reqs reqs reqs' then r' else retry_probe n' fuel root reqs' r'
+              else r
+    end.
+  Definition resolve_probe (n : nat) (fuel : nat) (root : vkey) : res graph :=
+    let (reqs, r) := pass fuel root [] in retry_probe n fuel root reqs r.
 End Resolver.
 
 (* ------------------------------------------------------------------ a client given by finite tables
